@@ -165,6 +165,11 @@ def parse_vspec(path):
             cur_fn["r12"] = True
         elif head == "r24":
             cur_fn["r24"] = True
+        elif head == "r27":
+            # r27 <loop ordinal>...: `for X in V { B }` with V an identifier of type `&mut Vec<T>` -> indexed while loop (rule R27)
+            cur_fn.setdefault("r27", []).extend(int(x) for x in rest.split())
+        elif head == "r28":
+            cur_fn["r28"] = True
         elif head == "r26":
             # r26 <loop ordinal> <elem type>: `for X in SET { B }` over a by-value HashSet -> indexed while loop over its elements (rule R26)
             parts = rest.split()
@@ -539,6 +544,47 @@ class UnitGen:
                 edits.append((be_ - 1, be_ - 1, f" vx_i{lo} = vx_i{lo} + 1; ", "R26"))
                 self.rewrites.append({"rule": "R26", "what": f"`for {X} in {S}` (HashSet by value) -> indexed while loop over vx_set_into_vec({S}) in {qual}",
                                       "file": src.rel, "line": src.line_of(fs_)})
+        # R27: `for X in V { B }` where V is an identifier bound to a `&mut Vec<T>` (so the loop is `V.iter_mut()`: every element in index
+        # order, by mutable reference) and B has no break / continue / return / `?` ->
+        # `let mut vx_i: usize = 0; while vx_i < V.len() { let X = &mut V[vx_i]; B vx_i = vx_i + 1; }` (the definition of iterating a
+        # vector mutably; B cannot touch V itself in the original because V is mutably borrowed for the whole loop). The loop keeps its ordinal.
+        if fs.get("r27"):
+            fors = {n["ord"]: n for n in nodes if n["kind"] == "for_parts" and not n["in_closure"]}
+            for lo in sorted(fs["r27"]):
+                if lo not in fors:
+                    raise Undecided(f"fn {qual}: R27 loop {lo} is not a for loop (lost anchor)")
+                n = fors[lo]
+                if n["body_has_ctrl"] or not n["pat_is_ident"] or not n["expr_is_ident"]:
+                    raise Undecided(f"fn {qual}: R27 refused (pattern / iterable not plain identifiers, or the body has break/continue/return/?)")
+                X = src.text(*n["pat"]).strip(); V = src.text(*n["expr"]).strip()
+                fs_, fe_ = n["range"]; bs_, be_ = n["body"]
+                edits.append((fs_, bs_, f"let mut vx_i{lo}: usize = 0; while vx_i{lo} < {V}.len() ", "R27"))
+                edits.append((bs_ + 1, bs_ + 1, f" let {X} = &mut {V}[vx_i{lo}];", "R27"))
+                edits.append((be_ - 1, be_ - 1, f" vx_i{lo} = vx_i{lo} + 1; ", "R27"))
+                self.rewrites.append({"rule": "R27", "what": f"`for {X} in {V}` (&mut Vec) -> indexed while loop with `let {X} = &mut {V}[i]` in {qual}",
+                                      "file": src.rel, "line": src.line_of(fs_)})
+        # R28: `Q.iter().position(|P| P == K)` (Q an identifier; the closure compares its parameter with an expression K by `==`) ->
+        # `vx_position(Q, K)`: the index of the first element equal to K (the definition of Iterator::position over a sequence);
+        # trusted helper, whose contract speaks of spec equality -- the element type's `==` must agree with it (key model).
+        if fs.get("r28"):
+            k28 = 0
+            for n in nodes:
+                if n["kind"] == "closure_call" and n["method"] == "position":
+                    c = n["closure"]
+                    recv = src.text(*n["receiver"]).strip()
+                    m = re.fullmatch(r"([A-Za-z_]\w*)\s*\.\s*iter\s*\(\s*\)", recv)
+                    body = src.text(*c["body"]).strip()
+                    pat = src.text(*c["params"][0]).strip() if len(c["params"]) == 1 else None
+                    mb = re.fullmatch(re.escape(pat or "") + r"\s*==\s*([A-Za-z_]\w*)", body) if pat else None
+                    if not m or not mb:
+                        raise Undecided(f"fn {qual}: R28 refused (not `q.iter().position(|x| x == k)`: {recv!r} / {body!r})")
+                    s0, e0 = n["range"]
+                    edits.append((s0, e0, f"vx_position({m.group(1)}, {mb.group(1)})", "R28"))
+                    k28 += 1
+                    self.rewrites.append({"rule": "R28", "what": f"`{m.group(1)}.iter().position(|{pat}| {body})` -> vx_position({m.group(1)}, {mb.group(1)}) in {qual}",
+                                          "file": src.rel, "line": src.line_of(s0)})
+            if k28 == 0:
+                raise Undecided(f"fn {qual}: R28 requested but no `.iter().position(..)` found (lost anchor)")
         # R18: `match E { P if G => A, _ => B }` (exactly these two arms) -> `if let P = E { if G { A } else { B } } else { B }`
         # (the installed Verus refuses a match arm that has both a guard and a by-mutable-reference binding). The guard is
         # evaluated exactly once on the path where P matches, as in the original; B is duplicated textually.
